@@ -22,10 +22,24 @@
 // fast-sync shape (block id computed from a real block), through
 // BlockExecutor.ValidateBlock (validateBlock) and through NewConsensusState
 // (reconstructLastCommit).
+//
+// A third instance (spec/VoteSet/FastSync.tla, SpecFastSync) models the syncing node of
+// blockchain/reactor.go poolRoutine: a peer supplies the block `first` served for height
+// H, second.LastBlockID, second.LastCommit.BlockID and the precommits independently of
+// each other; the node stores `first` iff VerifyCommit accepts the precommits for the id
+// computed from `first` itself, otherwise it stops the peer and asks the next one.  TLC
+// checks FastSyncSound (a block is stored at H only with a commit for exactly its id) and
+// must refute the two named deviations (verification against the id second.LastBlockID
+// names / the id the commit names).  Behaviours of one or two Serve actions are executed
+// on real BlockchainReactors (triple.go); compared after every action: the block the
+// syncing node's application holds at H, classified by its full id.
 package c03
 
 import (
+	"encoding/json"
 	"fmt"
+	"os"
+	"strings"
 	"sync"
 	"time"
 
@@ -70,13 +84,14 @@ func run(c *core.Ctx) {
 	}
 	o := c.Out()
 	o.Level = "model_checking"
-	o.Rule = "behaviour = path through the TLC-exported vote graph of VoteSet (a tour covering every edge + seeded random walks) replayed on a real types.VoteSet for one concrete instantiation, or one edge of the commit lattice executed at the four commit-verification call sites; non-trivial = at least one vote was admitted or one commit accepted/rejected; distinct = distinct (instantiation, edge sequence)"
+	o.Rule = "behaviour = path through the TLC-exported vote graph of VoteSet (a tour covering every edge + seeded random walks) replayed on a real types.VoteSet for one concrete instantiation, or one edge of the commit lattice executed at the four commit-verification call sites, or a path of the fast-sync graph (one or two peers serving first / second.LastBlockID / second.LastCommit) executed on real BlockchainReactors; non-trivial = at least one vote was admitted or one commit accepted/rejected or one served pair examined by poolRoutine; distinct = distinct (instantiation, edge sequence)"
 	o.Assumptions = []string{
 		"validator sets of 1..3 (quick) / 1..4 (thorough) validators, one representative (several orders) of every class of power vectors that differ in which subsets exceed 2/3 of / equal the total; larger sets are not explored",
 		"concrete powers are the abstract vector, a multiple with total just below 2^62, and a perturbed multiple verified (all subsets, exact arithmetic) to be comparison-equivalent with a subset hitting or missing the 2/3 boundary by at most one unit",
 		"two non-nil block ids and the nil id; one (quick) or two (thorough) peers claiming majorities",
 		"one defect per defective vote; in the quick tier non-signature defects are generated for one validator per state and for one block id",
 		"the ed25519 implementation and the canonical sign-bytes encoder are trusted to be sound; signatures are real",
+		"fast sync: height H = 1 of a chain started from genesis; the block served for H is the genuine one, another internally consistent one, the genuine header over altered content, or a block of height H+1; precommits are cast for the genuine and the other block's id only; second.LastCommit is assembled from 5 (quick) / 9 (thorough) of the 13 slot alternatives; at most two peers serve in turn; the fast-sync graph is sampled by strata (block served x id named by second x id named by the commit x what the precommits are a commit for x first/second peer), not replayed exhaustively; the two block deliveries of one peer are not interleaved with the trySync tick (poolRoutine acts only on a complete pair)",
 	}
 	o.Trusted = []string{"TLC", "golang.org/x/crypto ed25519", "the exact subset-comparison equivalence test of power vectors in the harness (math/big)"}
 
@@ -85,7 +100,15 @@ func run(c *core.Ctx) {
 	if c.Thorough() {
 		voteCfgs, commitCfgs = []string{"VoteSetT1.cfg", "VoteSetT2.cfg", "VoteSetT3.cfg"}, []string{"VoteSetCommitBig.cfg"}
 	}
+	// the fast-sync node (FastSync.tla) and its two named deviations, which TLC must refute
+	syncCfgs := []string{"FastSync.cfg"}
+	if c.Thorough() {
+		syncCfgs = []string{"FastSyncBig.cfg", "FastSyncBig4.cfg"}
+	}
+	devCfgs := []string{"FastSyncDevClaimed.cfg", "FastSyncDevCommitField.cfg"}
 	all := append(append([]string{}, voteCfgs...), commitCfgs...)
+	nVC := len(all)
+	all = append(append(all, syncCfgs...), devCfgs...)
 	results := make([]*tlc.Result, len(all))
 	errs := make([]error, len(all))
 	var wg sync.WaitGroup
@@ -98,7 +121,8 @@ func run(c *core.Ctx) {
 		}(i, cf)
 	}
 	wg.Wait()
-	var linesV, linesC []string
+	var linesV, linesC, linesS []string
+	var refuted []string
 	for i, r := range results {
 		if errs[i] != nil {
 			c.Infra("tlc %s: %v", all[i], errs[i])
@@ -106,18 +130,32 @@ func run(c *core.Ctx) {
 		}
 		o.States += r.Distinct
 		o.Transitions += r.Generated
-		o.TLCRuns = append(o.TLCRuns, fmt.Sprintf("MC_VoteSet %s: %s", all[i], r.Describe()))
+		o.TLCRuns = append(o.TLCRuns, fmt.Sprintf("%s %s: %s", moduleOf(all[i]), all[i], r.Describe()))
 		if o.CheckerCmd == "" {
 			o.CheckerCmd = r.Cmd
+		}
+		if i >= nVC+len(syncCfgs) {
+			// a named deviation (verification against the id second.LastBlockID / the commit itself names):
+			// the invariant must have teeth
+			if r.Violated != "FastSyncSound" {
+				c.Infra("FastSync model %s: TLC does not refute the deviation (expected a violation of FastSyncSound): %s\n%s", all[i], r.Describe(), r.Tail)
+				return
+			}
+			refuted = append(refuted, all[i]+" violates "+r.Violated)
+			r.Lines = nil
+			continue
 		}
 		if r.Violated != "" || !r.Finished || r.TimedOut || r.ErrorText != "" {
 			c.Infra("VoteSet model %s: %s\n%s", all[i], r.Describe(), r.Tail)
 			return
 		}
-		if i < len(voteCfgs) {
+		switch {
+		case i < len(voteCfgs):
 			linesV = append(linesV, r.Lines...)
-		} else {
+		case i < nVC:
 			linesC = append(linesC, r.Lines...)
+		default:
+			linesS = append(linesS, r.Lines...)
 		}
 		r.Lines = nil
 	}
@@ -145,27 +183,70 @@ func run(c *core.Ctx) {
 		c.Infra("commit lattice: %v", err)
 		return
 	}
+	gS, err := mbt.Load(linesS)
+	if err != nil {
+		c.Infra("fast-sync graph: %v", err)
+		return
+	}
+	linesS = nil
+	mS, err := parseFsTModel(gS)
+	if err != nil {
+		c.Infra("fast-sync graph: %v", err)
+		return
+	}
+	c.SetExtra("fastsync_graph", map[string]interface{}{"states": len(gS.States), "edges": len(gS.Edges), "configs": syncCfgs, "deviations_refuted_by_tlc": refuted})
 	c.SetExtra("vote_graph", map[string]interface{}{"states": len(gV.States), "edges": len(gV.Edges), "edges_by_action": gV.ActionKinds("op"), "vote_edges_by_defect": gV.ActionKinds("d"), "configs": voteCfgs})
 	c.SetExtra("commit_lattice", map[string]interface{}{"edges": len(gC.Edges), "configs": commitCfgs})
 
 	if !negativeControls(c, mV, mC) {
 		return
 	}
+	dbg := func(what string) {
+		if os.Getenv("VERIF_C03_DEBUG") != "" {
+			fmt.Fprintf(os.Stderr, "debug %s at %.1fs\n", what, time.Since(c.Start).Seconds())
+		}
+	}
+	dbg("tlc and controls done")
 	t0 := time.Now()
 	replayVotes(c, mV)
+	dbg("votes done")
 	c.SetExtra("vote_replay_wall_s", time.Since(t0).Seconds())
 	t0 = time.Now()
 	replayCommits(c, mC)
 	c.SetExtra("commit_replay_wall_s", time.Since(t0).Seconds())
+	dbg("commits done")
 	t0 = time.Now()
 	replayFastSync(c, mC)
+	dbg("fastsync done")
 	c.SetExtra("fastsync_wall_s", time.Since(t0).Seconds())
+	t0 = time.Now()
+	replayTriples(c, mS)
+	c.SetExtra("fastsync_triples_wall_s", time.Since(t0).Seconds())
+	if os.Getenv("VERIF_C03_DEBUG") != "" {
+		for _, k := range []string{"tlc_wall_s", "vote_replay_wall_s", "commit_replay_wall_s", "fastsync_wall_s", "fastsync_triples_wall_s", "fastsync_graph", "fastsync_reactor", "fastsync_triples"} {
+			b, _ := json.Marshal(o.Extra[k])
+			fmt.Fprintf(os.Stderr, "debug %s = %s\n", k, b)
+		}
+		for _, d := range o.Drift {
+			fmt.Fprintln(os.Stderr, "debug drift:", d)
+		}
+		for _, d := range o.Infra {
+			fmt.Fprintln(os.Stderr, "debug infra:", d)
+		}
+	}
+}
+
+func moduleOf(config string) string {
+	if strings.HasPrefix(config, "FastSync") {
+		return "FastSync"
+	}
+	return "MC_VoteSet"
 }
 
 // runTLC runs one configuration. A run that ends without a verdict, an error or a timeout
 // (the JVM was killed from outside) is repeated once.
 func runTLC(c *core.Ctx, config string) (*tlc.Result, error) {
-	opts := tlc.Options{SpecDir: c.SpecDir("VoteSet"), Module: "MC_VoteSet", Config: config, Workers: 1, Timeout: c.MinutesT(4, 25)}
+	opts := tlc.Options{SpecDir: c.SpecDir("VoteSet"), Module: moduleOf(config), Config: config, Workers: 1, Timeout: c.MinutesT(4, 25)}
 	r, err := tlc.Run(opts)
 	if err == nil && !r.Finished && r.Violated == "" && !r.TimedOut && r.ErrorText == "" && !r.Deadlock {
 		r, err = tlc.Run(opts)
